@@ -1,5 +1,18 @@
 (* Proofs about Model/Engine.v: glitch freedom of the repaired propagation algorithm on every
-   ranked (acyclic) graph, for every rule, every registration order and every queue order. *)
+   ranked (acyclic) graph, for every rule, every demand function, every registration order and every
+   queue order.
+
+   Demands.  A node n has static dependencies `D n`; its update may DEMAND further nodes `Dm n ins`, a
+   function of the firings `ins` of its static dependencies.  The graph that has to be acyclic is the
+   POTENTIAL graph `D n ++ Dem n`, where `Dem n` over-approximates the demands of n - but only the demands
+   that occur at the SOLUTION `den` of the equations of the graph have to lie within `Dem n` (hypothesis
+   Dm_den; it follows trivially from `forall n ins, incl (Dm n ins) (Dem n)`).  The equation of a node:
+       with ins = firings of D n and ex = Dm n ins,
+       fire n = if some node of D n ++ ex changed then F n ins (firings of ex) else None      (`cons`)
+   and a node is settled when its static dependencies and the nodes it demands are done          (`I`).
+   A demanded node that becomes done and changed queues ITS dependents (it is entered as a dependency);
+   the demanding node need not be registered among them.  Demands are made from inside the update, hence
+   only when some static dependency fired (hypothesis Dm_quiet). *)
 From Coq Require Import List Arith Lia Bool.
 Import ListNotations.
 From Sodium Require Import Engine.
@@ -56,30 +69,95 @@ Proof.
     + exfalso. clear -E. induction l; simpl in *; [discriminate|auto].
 Qed.
 
+Lemma existsb_ext_in {A} (f h : A -> bool) l : (forall x, In x l -> f x = h x) -> existsb f l = existsb h l.
+Proof.
+  induction l as [|x l IH]; simpl; intros H; auto.
+  rewrite (H x (or_introl eq_refl)), IH; auto.
+Qed.
+
+Lemma existsb_map {A B} (f : A -> B) (p : B -> bool) l : existsb p (map f l) = existsb (fun x => p (f x)) l.
+Proof. induction l as [|x l IH]; simpl; auto. rewrite IH. reflexivity. Qed.
+
+(* the engine without demands is the engine as it was before demands were added: one step of
+   `update_node ... no_demands` unfolds to the old definition (no second stage, the rule applied to the
+   firings of the static dependencies and to no demanded firing) *)
+Lemma update_node_no_demands {Val} (F : rule Val) orig f s n as_dep :
+  update_node F no_demands orig (S f) s n as_dep =
+  if visited (get (g s) n) then Some s else
+  let s1 := mark s n true false in
+  let ds := deps (get (g s) n) in
+  match fold_left (fun acc d => match acc with None => None | Some a =>
+                      if visited (get (g a) d) then Some a else update_node F no_demands orig f a d true end) ds (Some s1) with
+  | None => None
+  | Some s2 =>
+    let s3 := if existsb (fun d => changed (get (g s2) d)) ds then run_update F s2 n [] else s2 in
+    let s4 := mark s3 n true true in
+    if changed (get (g s4) n) then
+      if as_dep && negb orig then
+        Some {| g := g s4; queue := queue s4 ++ dependents (get (g s4) n); log := log s4 |}
+      else
+        fold_left (fun acc m => match acc with None => None | Some a => update_node F no_demands orig f a m false end)
+                  (dependents (get (g s4) n)) (Some s4)
+    else Some s4
+  end.
+Proof.
+  cbn [update_node]. destruct (visited (get (g s) n)); [reflexivity|]. cbv zeta.
+  destruct (fold_left _ (deps (get (g s) n)) _) as [s2|]; [|reflexivity].
+  change (no_demands n (fires_of (g s2) (deps (get (g s) n)))) with (@nil nat).
+  cbn [fold_left]. rewrite app_nil_r. reflexivity.
+Qed.
+
 Section Safety.
   Context {Val : Type}.
   Variable F : rule Val.
-  Variables D Dts : nat -> list nat.
+  Variable Dm : demand Val.
+  (* D: static dependencies; Dem: potential demand targets; Dts: registered dependents *)
+  Variables D Dem Dts : nat -> list nat.
   Variable rank : nat -> nat.
   Variable N : nat.
-  Hypothesis rank_ok : forall n d, In d (D n) -> rank d < rank n.
+  (* a solution of the equations of the graph: sources as fired, every derived node its rule applied to
+     the solution at its static dependencies and at the nodes it demands THERE.  Only the demands at the
+     solution have to lie within the ranked potential demands (Dm_den): the potential-demand graph needs
+     to be acyclic only where demands actually occur. *)
+  Variable den : nat -> option Val.
+  (* the potential graph (static dependencies and potential demands) is acyclic *)
+  Hypothesis rank_ok : forall n d, In d (D n ++ Dem n) -> rank d < rank n.
   Hypothesis D_range : forall n d, In d (D n) -> d < N.
+  Hypothesis Dem_range : forall n d, In d (Dem n) -> d < N.
   Hypothesis Dts_range : forall n d, In d (Dts n) -> d < N.
-  (* every dependency edge is registered in the dependents list of its target *)
+  Hypothesis den_eq : forall n, n < N -> D n <> [] ->
+    den n = (if existsb is_some (map den (D n ++ Dm n (map den (D n))))
+             then F n (map den (D n)) (map den (Dm n (map den (D n)))) else None).
+  Hypothesis Dm_den : forall n, n < N -> incl (Dm n (map den (D n))) (Dem n).
+  (* nothing is demanded unless a static dependency fired (the demand is made from inside the update) *)
+  Hypothesis Dm_quiet : forall n ins, existsb is_some ins = false -> Dm n ins = [].
+  (* every static dependency edge is registered in the dependents list of its target (a demanding node
+     need NOT be registered among the dependents of the nodes it demands) *)
   Hypothesis Dts_complete : forall n d, n < N -> In d (D n) -> In n (Dts d).
 
   Definition shape (gr : graph Val) :=
     length gr = N /\ forall n, n < N -> deps (get gr n) = D n /\ dependents (get gr n) = Dts n.
   Definition pend (gr : graph Val) (n : nat) := visited (get gr n) = true /\ done (get gr n) = false.
   Definition clean (gr : graph Val) (n : nat) := D n <> [] -> fire (get gr n) = None /\ changed (get gr n) = false.
+  (* firings of the static dependencies, the nodes demanded given these, all inputs *)
+  Definition ins_of (gr : graph Val) (n : nat) : list (option Val) := fires_of gr (D n).
+  Definition exs_of (gr : graph Val) (n : nat) : list nat := Dm n (ins_of gr n).
+  Definition inp (gr : graph Val) (n : nat) : list nat := D n ++ exs_of gr n.
+  Definition chgd (gr : graph Val) (l : list nat) : bool := existsb (fun d => changed (get gr d)) l.
+  (* the equation of node n *)
   Definition cons (gr : graph Val) (n : nat) :=
     D n <> [] ->
-    fire (get gr n) = (if existsb (fun d => changed (get gr d)) (D n) then F n (map (fun d => fire (get gr d)) (D n)) else None) /\
+    fire (get gr n) = (if chgd gr (inp gr n) then F n (ins_of gr n) (fires_of gr (exs_of gr n)) else None) /\
     changed (get gr n) = match fire (get gr n) with Some _ => true | None => false end.
+  (* done nodes are settled (their static dependencies and the nodes they demand are done) and satisfy
+     their equation; nodes not done yet are clean *)
   Definition I (gr : graph Val) :=
     (forall n, n < N -> done (get gr n) = true ->
-        visited (get gr n) = true /\ (forall d, In d (D n) -> done (get gr d) = true) /\ cons gr n) /\
+        visited (get gr n) = true /\ (forall d, In d (inp gr n) -> done (get gr d) = true) /\ cons gr n) /\
     (forall n, n < N -> done (get gr n) = false -> clean gr n).
+  (* the sources are as in the solution *)
+  Definition SrcOK (gr : graph Val) :=
+    forall n, n < N -> D n = [] -> fire (get gr n) = den n /\ changed (get gr n) = is_some (den n).
   Definition ext (gr gr' : graph Val) :=
     shape gr' /\
     (forall n, n < N -> visited (get gr n) = true -> visited (get gr' n) = true) /\
@@ -104,11 +182,99 @@ Section Safety.
     - intros n Hn Dn. destruct (R1 n Hn Dn) as [A B]. destruct (R2 n Hn Dn) as [A' B']. split; congruence.
   Qed.
 
+  Lemma SrcOK_ext a b : SrcOK a -> ext a b -> SrcOK b.
+  Proof.
+    intros Sa (_ & _ & _ & _ & _ & _ & R) n Hn Dn. destruct (R n Hn Dn) as [A B]. rewrite A, B. apply Sa; auto.
+  Qed.
+
+  (* ---------------- inputs read only the nodes they name ---------------- *)
+  Lemma fires_of_eq (gr gr' : graph Val) l : (forall d, In d l -> get gr' d = get gr d) -> fires_of gr' l = fires_of gr l.
+  Proof. intros H. unfold fires_of. apply map_ext_in. intros d Hd. rewrite H; auto. Qed.
+
+  Lemma chgd_eq (gr gr' : graph Val) l : (forall d, In d l -> get gr' d = get gr d) -> chgd gr' l = chgd gr l.
+  Proof. intros H. unfold chgd. apply existsb_ext_in. intros d Hd. rewrite H; auto. Qed.
+
+  Lemma exs_of_eq (gr gr' : graph Val) m : (forall d, In d (D m) -> get gr' d = get gr d) -> exs_of gr' m = exs_of gr m.
+  Proof. intros H. unfold exs_of, ins_of. rewrite (fires_of_eq gr gr' (D m) H). reflexivity. Qed.
+
+  Lemma inp_eq (gr gr' : graph Val) m : (forall d, In d (D m) -> get gr' d = get gr d) -> inp gr' m = inp gr m.
+  Proof. intros H. unfold inp. rewrite (exs_of_eq gr gr' m H). reflexivity. Qed.
+
+  Lemma in_inp_l gr m d : In d (D m) -> In d (inp gr m).
+  Proof. intros H. unfold inp. apply in_or_app; auto. Qed.
+  Lemma in_inp_r gr m d : In d (exs_of gr m) -> In d (inp gr m).
+  Proof. intros H. unfold inp. apply in_or_app; auto. Qed.
+
+  Lemma cons_eq (gr gr' : graph Val) m :
+    (forall d, In d (inp gr m) -> get gr' d = get gr d) -> get gr' m = get gr m -> cons gr m -> cons gr' m.
+  Proof.
+    intros H Hm C NE. specialize (C NE).
+    assert (HD : forall d, In d (D m) -> get gr' d = get gr d) by (intros d Hd; apply H; apply in_inp_l; exact Hd).
+    assert (HX : forall d, In d (exs_of gr m) -> get gr' d = get gr d) by (intros d Hd; apply H; apply in_inp_r; exact Hd).
+    rewrite Hm, (inp_eq gr gr' m HD), (exs_of_eq gr gr' m HD). unfold ins_of.
+    rewrite (fires_of_eq gr gr' (D m) HD), (fires_of_eq gr gr' (exs_of gr m) HX), (chgd_eq gr gr' (inp gr m) H).
+    exact C.
+  Qed.
+
+  (* ---------------- a set of nodes closed under inputs, each satisfying its equation, carries the solution ---------------- *)
+  Lemma closed_den gr (P : nat -> Prop) :
+    (forall n, n < N -> P n -> cons gr n /\ forall d, In d (inp gr n) -> P d) ->
+    SrcOK gr -> forall n, n < N -> P n ->
+    fire (get gr n) = den n /\ changed (get gr n) = is_some (den n).
+  Proof.
+    intros Cl Src n. remember (rank n) as r eqn:Hr. revert n Hr.
+    induction r as [r IHr] using lt_wf_ind. intros n Hr Hn Pn.
+    destruct (list_eq_dec Nat.eq_dec (D n) []) as [En|NE]; [apply Src; auto|].
+    destruct (Cl n Hn Pn) as (C & Ds). destruct (C NE) as [A B].
+    assert (EqD : forall d, In d (D n) -> fire (get gr d) = den d /\ changed (get gr d) = is_some (den d)).
+    { intros d Hd. apply (IHr (rank d)); auto.
+      - subst r. apply rank_ok. apply in_or_app; auto.
+      - eapply D_range; eauto.
+      - apply Ds. apply in_inp_l; exact Hd. }
+    assert (Ei : ins_of gr n = map den (D n)).
+    { unfold ins_of, fires_of. apply map_ext_in. intros d Hd. apply EqD; auto. }
+    assert (Ex : exs_of gr n = Dm n (map den (D n))) by (unfold exs_of; rewrite Ei; reflexivity).
+    assert (EqX : forall d, In d (exs_of gr n) -> fire (get gr d) = den d /\ changed (get gr d) = is_some (den d)).
+    { intros d Hd. pose proof Hd as Hd'. rewrite Ex in Hd'. apply (Dm_den n Hn) in Hd'. apply (IHr (rank d)); auto.
+      - subst r. apply rank_ok. apply in_or_app; auto.
+      - eapply Dem_range; eauto.
+      - apply Ds. apply in_inp_r; exact Hd. }
+    assert (EqA : forall d, In d (inp gr n) -> fire (get gr d) = den d /\ changed (get gr d) = is_some (den d)).
+    { intros d Hd. unfold inp in Hd. apply in_app_or in Hd as [Hd|Hd]; auto. }
+    assert (Ec : chgd gr (inp gr n) = existsb is_some (map den (D n ++ Dm n (map den (D n))))).
+    { rewrite existsb_map. unfold chgd. rewrite <- Ex. apply existsb_ext_in. intros d Hd. apply EqA; exact Hd. }
+    assert (Ef : fires_of gr (exs_of gr n) = map den (Dm n (map den (D n)))).
+    { rewrite <- Ex. unfold fires_of. apply map_ext_in. intros d Hd. apply EqX; exact Hd. }
+    assert (Fe : fire (get gr n) = den n).
+    { rewrite A, Ec, Ei, Ef. symmetry. apply den_eq; auto. }
+    split; [exact Fe|]. rewrite B, Fe. reflexivity.
+  Qed.
+
+  (* done nodes carry the solution *)
+  Lemma done_den gr : I gr -> SrcOK gr -> forall n, n < N -> done (get gr n) = true ->
+    fire (get gr n) = den n /\ changed (get gr n) = is_some (den n).
+  Proof.
+    intros [I1 _] Src. apply (closed_den gr (fun n => done (get gr n) = true)); [|exact Src].
+    intros n Hn Dn. destruct (I1 n Hn Dn) as (_ & Ds & C). split; [exact C | exact Ds].
+  Qed.
+
+  (* when the static dependencies of n are done, the nodes n demands are the demands at the solution,
+     hence potential demands of n *)
+  Lemma demands_at_solution gr n : I gr -> SrcOK gr -> n < N -> (forall d, In d (D n) -> done (get gr d) = true) ->
+    ins_of gr n = map den (D n) /\ incl (exs_of gr n) (Dem n).
+  Proof.
+    intros Inv Src Hn Ds.
+    assert (Ei : ins_of gr n = map den (D n)).
+    { unfold ins_of, fires_of. apply map_ext_in. intros d Hd. apply (done_den gr Inv Src d); auto. eapply D_range; eauto. }
+    split; [exact Ei|]. unfold exs_of. rewrite Ei. apply Dm_den; exact Hn.
+  Qed.
+
   Definition pre (gr : graph Val) (n : nat) (as_dep : bool) :=
     if as_dep then forall p, p < N -> pend gr p -> rank n < rank p else forall p, p < N -> ~ pend gr p.
 
   (* changing only the visited/done flags of node n *)
-  Definition reflag (x : node Val) v d := {| deps := deps x; dependents := dependents x; visited := v; done := d; changed := changed x; fire := fire x |}.
+  Definition reflag (x : node Val) v d :=
+    {| deps := deps x; dem := dem x; dependents := dependents x; visited := v; done := d; changed := changed x; fire := fire x |}.
   Lemma mark_g s n v d : g (mark s n v d) = set (g s) n (reflag (get (g s) n) v d).
   Proof. reflexivity. Qed.
 
@@ -116,6 +282,42 @@ Section Safety.
   Proof.
     intros [L S] Hn E1 E2. split; [rewrite set_length; auto|]. intros m Hm.
     destruct (Nat.eq_dec n m) as [->|Ne]; [rewrite get_set_same by lia; auto | rewrite get_set_other by auto; auto].
+  Qed.
+
+  (* step A of update_node: marking an undone node pending keeps the invariants *)
+  Lemma mark_pending_get (s : st Val) n m :
+    n < length (g s) ->
+    get (g (mark s n true false)) m = if Nat.eqb n m then reflag (get (g s) n) true false else get (g s) m.
+  Proof.
+    intros L. rewrite mark_g. destruct (Nat.eqb_spec n m) as [->|Ne]; [rewrite get_set_same | rewrite get_set_other]; auto.
+  Qed.
+
+  Lemma I_mark_pending s n :
+    n < N -> shape (g s) -> I (g s) -> done (get (g s) n) = false ->
+    shape (g (mark s n true false)) /\ I (g (mark s n true false)).
+  Proof.
+    intros Hn [L S] Iv Dn_false.
+    assert (Lg : n < length (g s)) by lia.
+    assert (G1 : forall m, get (g (mark s n true false)) m = if Nat.eqb n m then reflag (get (g s) n) true false else get (g s) m)
+      by (intros; apply mark_pending_get; auto).
+    split.
+    { rewrite mark_g. apply shape_set; [split; auto| auto | simpl; apply S; auto | simpl; apply S; auto]. }
+    remember (mark s n true false) as s1 eqn:Hs1.
+    assert (G1o : forall m, m <> n -> get (g s1) m = get (g s) m).
+    { intros m Ne. rewrite G1. destruct (Nat.eqb_spec n m); [congruence|reflexivity]. }
+    destruct Iv as [I1 I2]. split.
+    - intros m Hm Dm0. rewrite G1 in Dm0. destruct (Nat.eqb_spec n m) as [->|Ne]; [simpl in Dm0; discriminate|].
+      destruct (I1 m Hm Dm0) as (V & Ds & C).
+      assert (Dsn : forall d, In d (inp (g s) m) -> get (g s1) d = get (g s) d).
+      { intros d Hd. apply G1o. intros ->. specialize (Ds n Hd). congruence. }
+      assert (Gm : get (g s1) m = get (g s) m) by (apply G1o; auto).
+      assert (Ei : inp (g s1) m = inp (g s) m) by (apply inp_eq; intros d Hd; apply Dsn; apply in_inp_l; exact Hd).
+      rewrite Gm. split; [exact V|]. split.
+      + intros d Hd. rewrite Ei in Hd. rewrite Dsn by exact Hd. apply Ds; exact Hd.
+      + apply (cons_eq (g s) (g s1) m Dsn Gm C).
+    - intros m Hm Dm0 NE. rewrite G1 in *. destruct (Nat.eqb_spec n m) as [->|Ne]; simpl.
+      + apply (I2 m Hm Dn_false NE).
+      + apply (I2 m Hm Dm0 NE).
   Qed.
 
   Definition CovAt (s : st Val) (k : nat) := forall m, In m (Dts k) -> visited (get (g s) m) = true \/ In m (queue s).
@@ -131,6 +333,9 @@ Section Safety.
     intros C (_ & V & _) Inc m Hm. destruct (C m Hm) as [Vm|Qm]; [left; apply V; auto; eapply Dts_range; eauto | right; auto].
   Qed.
 
+  Lemma NewCov_refl a : NewCov a a.
+  Proof. intros k Hk Dk Ck NDk. congruence. Qed.
+
   Lemma NewCov_trans a b c :
     ext (g a) (g b) -> ext (g b) (g c) -> incl (queue b) (queue c) -> NewCov a b -> NewCov b c -> NewCov a c.
   Proof.
@@ -141,171 +346,216 @@ Section Safety.
     - apply Nbc; auto.
   Qed.
 
-  Theorem update_node_safe : forall fuel s n as_dep s',
-    n < N -> shape (g s) -> I (g s) -> pre (g s) n as_dep ->
-    update_node F false fuel s n as_dep = Some s' -> Post s n s'.
+  (* visiting, as dependencies, the unvisited nodes of a list *)
+  Definition visit_deps (f : nat) (l : list nat) (a0 : st Val) : option (st Val) :=
+    fold_left (fun acc d => match acc with None => None | Some a =>
+                 if visited (get (g a) d) then Some a else update_node F Dm false f a d true end) l (Some a0).
+
+  Definition SafeAt (f : nat) := forall s n as_dep s',
+    n < N -> shape (g s) -> I (g s) -> SrcOK (g s) -> pre (g s) n as_dep ->
+    update_node F Dm false f s n as_dep = Some s' -> Post s n s'.
+
+  (* visiting as dependencies a list of nodes each of lower rank than every pending node: all end done *)
+  Lemma visit_deps_safe f l a0 r :
+    SafeAt f -> (forall d, In d l -> d < N) ->
+    (forall p d, p < N -> pend (g a0) p -> In d l -> rank d < rank p) ->
+    shape (g a0) -> I (g a0) -> SrcOK (g a0) ->
+    visit_deps f l a0 = Some r ->
+    shape (g r) /\ I (g r) /\ ext (g a0) (g r) /\ incl (queue a0) (queue r) /\ NewCov a0 r /\
+    forall d, In d l -> done (get (g r) d) = true.
   Proof.
-    induction fuel as [|f IH]; intros s n as_dep s' Hn S Inv Pre E; [discriminate|].
-    cbn [update_node] in E.
-    destruct (visited (get (g s) n)) eqn:Vn.
-    { inversion E; subst s'. split; [exact Inv|]. split; [apply ext_refl; exact S|]. split; [exact Vn|]. split; [intros C; congruence|].
-      split; [apply incl_refl|]. intros k Hk Dk Ck NDk. congruence. }
-    set (x := get (g s) n) in *.
-    assert (Dn_false : done x = false).
-    { destruct (done x) eqn:Dx; auto. destruct Inv as [I1 _]. destruct (I1 n Hn Dx) as [V _]. unfold x in *; congruence. }
-    destruct S as [L S].
-    assert (Lg : n < length (g s)) by lia.
-    (* step A: mark pending *)
-    remember (mark s n true false) as s1 eqn:Hs1.
-    assert (G1 : forall m, get (g s1) m = if Nat.eqb n m then reflag x true false else get (g s) m).
-    { intros m. rewrite Hs1, mark_g. destruct (Nat.eqb_spec n m) as [->|Ne];
-      [rewrite get_set_same | rewrite get_set_other]; auto. }
-    assert (S1 : shape (g s1)).
-    { rewrite Hs1, mark_g. apply shape_set; [split; auto| auto | apply S; auto | apply S; auto]. }
-    assert (P1 : forall p, p < N -> pend (g s1) p -> p = n \/ pend (g s) p).
-    { intros p Hp [A B]. rewrite G1 in A, B. destruct (Nat.eqb_spec n p); auto. right; split; auto. }
-    assert (Inv1 : I (g s1)).
-    { destruct Inv as [I1 I2]. split.
-      - intros m Hm Dm. rewrite G1 in Dm. destruct (Nat.eqb_spec n m) as [->|Ne]; [simpl in Dm; discriminate|].
-        destruct (I1 m Hm Dm) as (V & Ds & C). rewrite G1. apply Nat.eqb_neq in Ne; rewrite Ne. split; auto.
-        assert (Dsn : forall d, In d (D m) -> d <> n).
-        { intros d Hd ->. specialize (Ds n Hd). unfold x in *; congruence. }
-        split.
-        + intros d Hd. rewrite G1. destruct (Nat.eqb_spec n d) as [->|]; [exfalso; eapply Dsn; eauto|auto].
-        + assert (Eq1 : forall l, (forall d, In d l -> d <> n) -> existsb (fun d => changed (get (g s1) d)) l = existsb (fun d => changed (get (g s) d)) l).
-          { induction l as [|d l IHl]; simpl; auto. intros Hl. rewrite G1. destruct (Nat.eqb_spec n d) as [->|]; [exfalso; eapply Hl; simpl; eauto|].
-            rewrite IHl; [reflexivity|]. intros; apply Hl; simpl; auto. }
-          assert (Eq2 : forall l, (forall d, In d l -> d <> n) -> map (fun d => fire (get (g s1) d)) l = map (fun d => fire (get (g s) d)) l).
-          { induction l as [|d l IHl]; simpl; auto. intros Hl. rewrite G1. destruct (Nat.eqb_spec n d) as [->|]; [exfalso; eapply Hl; simpl; eauto|].
-            rewrite IHl; [reflexivity|]. intros; apply Hl; simpl; auto. }
-          assert (Gm : get (g s1) m = get (g s) m) by (rewrite G1, Ne; auto).
-          unfold cons in *. intros NE. specialize (C NE).
-          rewrite (Eq1 (D m) Dsn), (Eq2 (D m) Dsn), Gm. exact C.
-      - intros m Hm Dm NE. rewrite G1 in *. destruct (Nat.eqb_spec n m) as [->|Ne]; simpl.
-        + apply (I2 m Hm Dn_false NE).
-        + apply (I2 m Hm Dm NE). }
-    assert (Xn : D n <> [] -> fire x = None /\ changed x = false).
-    { destruct Inv as [_ I2]. apply (I2 n Hn Dn_false). }
-    assert (Dx : deps x = D n) by (apply S; auto).
-    assert (Dtx : dependents x = Dts n) by (apply S; auto).
-    assert (Nn : forall d, In d (D n) -> d <> n).
-    { intros d Hd ->. apply rank_ok in Hd. lia. }
-    (* step B: the dependencies *)
-    cbv zeta in E. rewrite Dx in E.
-    match type of E with match ?T with _ => _ end = _ => destruct T as [s2|] eqn:EB end; [|discriminate].
-    pose (P := fun a : st Val => shape (g a) /\ I (g a) /\ ext (g s1) (g a) /\ incl (queue s1) (queue a) /\ NewCov s1 a).
+    intros IH Hl Hp Sa0 Ia0 Src0 Er. unfold visit_deps in Er.
+    pose (P := fun a : st Val => shape (g a) /\ I (g a) /\ ext (g a0) (g a) /\ incl (queue a0) (queue a) /\ NewCov a0 a).
     pose (Q := fun (d : nat) (a : st Val) => visited (get (g a) d) = true).
-    pose (fB := fun (a : st Val) (d : nat) => if visited (get (g a) d) then Some a else update_node F false f a d true).
-    assert (PreB : forall a d, In d (D n) -> P a -> pre (g a) d true).
-    { intros a d Hd (Sa & Ia & (_ & _ & _ & _ & Qa & _ & _) & _) p Hp Pp.
-      destruct (P1 p Hp (Qa p Hp Pp)) as [->|Ps]; [apply rank_ok; auto|].
-      destruct as_dep; simpl in Pre.
-      - specialize (Pre p Hp Ps). apply rank_ok in Hd. lia.
-      - exfalso. eapply Pre; eauto. }
-    destruct (fold_opt_inv2 P Q fB (D n) s1 s2) as [(S2 & Inv2 & X12 & Q12i & N12) V2]; auto.
-    { split; [|split; [|split; [|split]]]; auto. apply ext_refl; auto. apply incl_refl.
-      intros k Hk Dk Ck NDk. congruence. }
+    pose (fB := fun (a : st Val) (d : nat) => if visited (get (g a) d) then Some a else update_node F Dm false f a d true).
+    assert (PreB : forall a d, In d l -> P a -> pre (g a) d true).
+    { intros a d Hd (_ & _ & (_ & _ & _ & _ & Qa & _ & _) & _) p HpN Pp. apply (Hp p d HpN); auto. }
+    assert (SrcB : forall a, P a -> SrcOK (g a)).
+    { intros a (_ & _ & Xa & _). apply (SrcOK_ext (g a0)); auto. }
+    destruct (fold_opt_inv2 P Q fB l a0 r) as [(Sr & Ir & X0r & Q0r & N0r) Vr]; auto.
+    { split; [|split; [|split; [|split]]]; auto. apply ext_refl; auto. apply incl_refl. apply NewCov_refl. }
     { intros a d a' Hd Pa Ea. unfold fB in Ea. destruct (visited (get (g a) d)) eqn:Vd.
       - inversion Ea; subst. split; auto.
       - pose proof Pa as (Sa & Ia & Xa & Qa & Na).
-        destruct (IH a d true a' (D_range _ _ Hd) Sa Ia (PreB a d Hd Pa) Ea) as (Ia' & Xa' & Va' & _ & Qa' & Na').
+        destruct (IH a d true a' (Hl d Hd) Sa Ia (SrcB a Pa) (PreB a d Hd Pa) Ea) as (Ia' & Xa' & Va' & _ & Qa' & Na').
         split; [|exact Va']. split; [apply Xa'|]. split; auto. split; [eapply ext_trans; eauto|].
         split; [eapply incl_tran; eauto|]. eapply NewCov_trans; eauto. }
     { intros a d y a' Hd Hy Pa Qa Ea. unfold fB in Ea. destruct (visited (get (g a) y)) eqn:Vy.
       - inversion Ea; subst; auto.
       - pose proof Pa as (Sa & Ia & Xa & _).
-        destruct (IH a y true a' (D_range _ _ Hy) Sa Ia (PreB a y Hy Pa) Ea) as (_ & (_ & Vm & _) & _).
-        apply Vm; auto. eapply D_range; eauto. }
-    (* step C: all dependencies are done, n is still as we left it *)
-    destruct X12 as (_ & V12 & D12 & K12 & Q12 & U12 & R12).
+        destruct (IH a y true a' (Hl y Hy) Sa Ia (SrcB a Pa) (PreB a y Hy Pa) Ea) as (_ & (_ & Vm & _) & _).
+        apply Vm; auto. }
+    split; [exact Sr|]. split; [exact Ir|]. split; [exact X0r|]. split; [exact Q0r|]. split; [exact N0r|].
+    (* visited and of lower rank than every pending node: done *)
+    intros d Hd. destruct (done (get (g r) d)) eqn:Dd; auto. exfalso.
+    assert (Pd : pend (g r) d) by (split; auto; apply Vr; auto).
+    destruct X0r as (_ & _ & _ & _ & Q0 & _ & _).
+    pose proof (Hp d d (Hl d Hd) (Q0 d (Hl d Hd) Pd) Hd). lia.
+  Qed.
+
+  Theorem update_node_safe : forall fuel s n as_dep s',
+    n < N -> shape (g s) -> I (g s) -> SrcOK (g s) -> pre (g s) n as_dep ->
+    update_node F Dm false fuel s n as_dep = Some s' -> Post s n s'.
+  Proof.
+    induction fuel as [|f IH]; intros s n as_dep s' Hn S Inv Src Pre E; [discriminate|].
+    cbn [update_node] in E.
+    destruct (visited (get (g s) n)) eqn:Vn.
+    { inversion E; subst s'. split; [exact Inv|]. split; [apply ext_refl; exact S|]. split; [exact Vn|]. split; [intros C; congruence|].
+      split; [apply incl_refl|]. apply NewCov_refl. }
+    set (x := get (g s) n) in *.
+    assert (Dn_false : done x = false).
+    { destruct (done x) eqn:Dx; auto. destruct Inv as [I1 _]. destruct (I1 n Hn Dx) as [V _]. unfold x in *; congruence. }
+    pose proof S as [L Sd].
+    assert (Lg : n < length (g s)) by lia.
+    (* step A: mark pending *)
+    destruct (I_mark_pending s n Hn S Inv Dn_false) as [S1 Inv1].
+    remember (mark s n true false) as s1 eqn:Hs1.
+    assert (G1 : forall m, get (g s1) m = if Nat.eqb n m then reflag x true false else get (g s) m).
+    { intros m. rewrite Hs1. apply mark_pending_get; exact Lg. }
+    assert (P1 : forall p, p < N -> pend (g s1) p -> p = n \/ pend (g s) p).
+    { intros p Hp [A B]. rewrite G1 in A, B. destruct (Nat.eqb_spec n p); auto. right; split; auto. }
+    assert (Src1 : SrcOK (g s1)).
+    { intros m Hm Dm0. rewrite G1. destruct (Nat.eqb_spec n m) as [->|Ne]; [simpl; apply Src; auto | apply Src; auto]. }
+    assert (Xn : D n <> [] -> fire x = None /\ changed x = false).
+    { destruct Inv as [_ I2]. apply (I2 n Hn Dn_false). }
+    assert (Dx : deps x = D n) by (apply Sd; auto).
+    assert (Dtx : dependents x = Dts n) by (apply Sd; auto).
     assert (Pn1 : pend (g s1) n).
     { split; rewrite G1, Nat.eqb_refl; auto. }
-    assert (Gn2 : get (g s2) n = reflag x true false).
+    (* visiting a list of lower-ranked nodes as dependencies, from any state reached from s1 *)
+    assert (Visit : forall l a0 r,
+              (forall d, In d l -> rank d < rank n /\ d < N) ->
+              shape (g a0) -> I (g a0) -> ext (g s1) (g a0) ->
+              visit_deps f l a0 = Some r ->
+              shape (g r) /\ I (g r) /\ ext (g a0) (g r) /\ incl (queue a0) (queue r) /\ NewCov a0 r /\
+              forall d, In d l -> done (get (g r) d) = true).
+    { intros l a0 r Hl Sa0 Ia0 X10 Er.
+      apply (visit_deps_safe f l a0 r); [exact IH| | | exact Sa0 | exact Ia0 | | exact Er].
+      - intros d Hd. apply (Hl d Hd).
+      - intros p d Hp Pp Hd. destruct (Hl d Hd) as [Rd _].
+        destruct X10 as (_ & _ & _ & _ & Q10 & _ & _).
+        destruct (P1 p Hp (Q10 p Hp Pp)) as [->|Ps]; [exact Rd|].
+        destruct as_dep; simpl in Pre.
+        + specialize (Pre p Hp Ps). lia.
+        + exfalso. eapply Pre; eauto.
+      - apply (SrcOK_ext (g s1)); auto. }
+    (* step B: the static dependencies *)
+    cbv zeta in E. fold x in E. rewrite Dx in E.
+    change (fold_left (fun acc d => match acc with None => None | Some a =>
+              if visited (get (g a) d) then Some a else update_node F Dm false f a d true end) (D n) (Some s1))
+      with (visit_deps f (D n) s1) in E.
+    destruct (visit_deps f (D n) s1) as [s2|] eqn:EB; [|discriminate].
+    destruct (Visit (D n) s1 s2) as (S2 & Inv2 & X12 & Q12 & N12 & DD); auto.
+    { intros d Hd. split; [apply rank_ok; apply in_or_app; auto | eapply D_range; eauto]. }
+    { apply ext_refl; exact S1. }
+    (* step B': the demanded nodes *)
+    assert (Src2 : SrcOK (g s2)) by (apply (SrcOK_ext (g s1)); auto).
+    destruct (demands_at_solution (g s2) n Inv2 Src2 Hn DD) as [_ ExDem].
+    change (fires_of (g s2) (D n)) with (ins_of (g s2) n) in E.
+    change (Dm n (ins_of (g s2) n)) with (exs_of (g s2) n) in E.
+    remember (exs_of (g s2) n) as ex eqn:Hex.
+    change (fold_left (fun acc d => match acc with None => None | Some a =>
+              if visited (get (g a) d) then Some a else update_node F Dm false f a d true end) ex (Some s2))
+      with (visit_deps f ex s2) in E.
+    destruct (visit_deps f ex s2) as [s2'|] eqn:EB'; [|discriminate].
+    destruct (Visit ex s2 s2') as (S2' & Inv2' & X22' & Q22' & N22' & DDx); auto.
+    { intros d Hd. apply ExDem in Hd. split; [apply rank_ok; apply in_or_app; auto | eapply Dem_range; eauto]. }
+    assert (X12' : ext (g s1) (g s2')) by (eapply ext_trans; eauto).
+    assert (Q12' : incl (queue s1) (queue s2')) by (eapply incl_tran; eauto).
+    assert (N12' : NewCov s1 s2') by (apply (NewCov_trans s1 s2 s2'); auto).
+    (* step C: all inputs are done, n is still as we left it *)
+    pose proof X22' as (_ & _ & D22' & _).
+    assert (Keep2 : forall d, In d (D n) -> get (g s2') d = get (g s2) d).
+    { intros d Hd. apply D22'; [eapply D_range; eauto | apply DD; exact Hd]. }
+    assert (Ex2' : exs_of (g s2') n = ex) by (rewrite Hex; apply exs_of_eq; exact Keep2).
+    assert (DD' : forall d, In d (D n ++ ex) -> done (get (g s2') d) = true).
+    { intros d Hd. apply in_app_or in Hd as [Hd|Hd]; [rewrite Keep2 by exact Hd; apply DD; exact Hd | apply DDx; exact Hd]. }
+    assert (Nn : forall d, In d (D n ++ ex) -> d <> n).
+    { intros d Hd ->. assert (R : rank n < rank n); [|lia]. apply rank_ok. apply in_app_or in Hd as [Hd|Hd]; apply in_or_app; auto. }
+    destruct X12' as (_ & V12 & D12 & K12 & Q12p & U12 & R12).
+    assert (Gn2 : get (g s2') n = reflag x true false).
     { rewrite K12; auto. rewrite G1, Nat.eqb_refl; auto. }
-    assert (DD : forall d, In d (D n) -> done (get (g s2) d) = true).
-    { intros d Hd. destruct (done (get (g s2) d)) eqn:Dd; auto. exfalso.
-      assert (Pd : pend (g s2) d) by (split; auto; apply V2; auto).
-      pose proof (D_range _ _ Hd) as Hdn.
-      destruct (P1 d Hdn (Q12 d Hdn Pd)) as [->|Ps]; [eapply Nn; eauto|].
-      destruct as_dep; simpl in Pre.
-      - specialize (Pre d Hdn Ps). apply rank_ok in Hd. lia.
-      - eapply Pre; eauto. }
     (* step D: update and mark done *)
-    remember (if existsb (fun d => changed (get (g s2) d)) (D n) then run_update F s2 n else s2) as s3 eqn:Hs3.
+    remember (if existsb (fun d => changed (get (g s2') d)) (D n ++ ex) then run_update F s2' n ex else s2') as s3 eqn:Hs3.
     remember (mark s3 n true true) as s4 eqn:Hs4.
-    destruct S2 as [L2 S2].
-    assert (G3 : forall m, m <> n -> get (g s3) m = get (g s2) m).
+    destruct S2' as [L2 S2'].
+    assert (G3 : forall m, m <> n -> get (g s3) m = get (g s2') m).
     { intros m Ne. rewrite Hs3. destruct (existsb _ _); auto. unfold run_update; simpl. rewrite get_set_other; auto. }
     assert (L3 : length (g s3) = N).
     { rewrite Hs3. destruct (existsb _ _); auto. unfold run_update; simpl. rewrite set_length; auto. }
-    assert (G4 : forall m, m <> n -> get (g s4) m = get (g s2) m).
+    assert (G4 : forall m, m <> n -> get (g s4) m = get (g s2') m).
     { intros m Ne. rewrite Hs4, mark_g, get_set_other; auto. }
     assert (G4n : get (g s4) n = reflag (get (g s3) n) true true).
     { rewrite Hs4, mark_g, get_set_same; auto. lia. }
     assert (G3n : deps (get (g s3) n) = D n /\ dependents (get (g s3) n) = Dts n /\
                   (D n <> [] ->
-                   fire (get (g s3) n) = (if existsb (fun d => changed (get (g s2) d)) (D n) then F n (map (fun d => fire (get (g s2) d)) (D n)) else None) /\
+                   fire (get (g s3) n) = (if chgd (g s2') (D n ++ ex) then F n (fires_of (g s2') (D n)) (fires_of (g s2') ex) else None) /\
                    changed (get (g s3) n) = match fire (get (g s3) n) with Some _ => true | None => false end)).
-    { rewrite Hs3. destruct (existsb (fun d => changed (get (g s2) d)) (D n)) eqn:Ex.
+    { rewrite Hs3. unfold chgd. destruct (existsb (fun d => changed (get (g s2') d)) (D n ++ ex)) eqn:Ex.
       - unfold run_update; simpl. rewrite get_set_same by lia. simpl. rewrite Gn2. simpl. rewrite Dx.
         split; auto. split; auto. intros NE. destruct (Xn NE) as [Fx Cx]. rewrite Fx, Cx.
-        destruct (F n (map (fun d => fire (get (g s2) d)) (D n))); auto.
+        destruct (F n (fires_of (g s2') (D n)) (fires_of (g s2') ex)); auto.
       - rewrite Gn2; simpl. split; auto. split; auto. intros NE. destruct (Xn NE) as [Fx Cx]. rewrite Fx, Cx. auto. }
     destruct G3n as (Dn3 & Dtn3 & Cn3).
     assert (S4 : shape (g s4)).
     { rewrite Hs4, mark_g. apply shape_set; auto. split; auto. intros m Hm.
       destruct (Nat.eq_dec m n) as [->|Ne]; [auto | rewrite G3; auto]. }
-    assert (EqE : forall l, (forall d, In d l -> d <> n) -> existsb (fun d => changed (get (g s4) d)) l = existsb (fun d => changed (get (g s2) d)) l).
-    { induction l as [|d l IHl]; cbn [existsb]; auto. intros Hl. rewrite G4 by (apply Hl; simpl; auto).
-      rewrite IHl; [reflexivity|]. intros; apply Hl; simpl; auto. }
-    assert (EqM : forall l, (forall d, In d l -> d <> n) -> map (fun d => fire (get (g s4) d)) l = map (fun d => fire (get (g s2) d)) l).
-    { induction l as [|d l IHl]; cbn [map]; auto. intros Hl. rewrite G4 by (apply Hl; simpl; auto).
-      rewrite IHl; [reflexivity|]. intros; apply Hl; simpl; auto. }
     assert (Inv4 : I (g s4)).
-    { destruct Inv2 as [I1 I2]. split.
-      - intros m Hm Dm. destruct (Nat.eq_dec m n) as [->|Ne].
-        + rewrite G4n. simpl. split; auto. split.
-          * intros d Hd. rewrite G4 by (apply Nn; auto). apply DD; auto.
-          * intros NE. rewrite (EqE _ Nn), (EqM _ Nn). rewrite G4n; simpl. apply Cn3; auto.
-        + rewrite G4 in Dm by auto. destruct (I1 m Hm Dm) as (Vm & Dsm & Cm). rewrite G4 by auto.
-          assert (Nm : forall d, In d (D m) -> d <> n).
-          { intros d Hd ->. specialize (Dsm n Hd). rewrite Gn2 in Dsm. simpl in Dsm. discriminate. }
-          split; auto. split.
-          * intros d Hd. rewrite G4 by (apply Nm; auto). auto.
-          * intros NE. rewrite (EqE _ Nm), (EqM _ Nm), G4 by auto. apply Cm; auto.
-      - intros m Hm Dm NE. destruct (Nat.eq_dec m n) as [->|Ne].
-        + rewrite G4n in Dm; simpl in Dm; discriminate.
+    { destruct Inv2' as [I1 I2]. split.
+      - intros m Hm Dm0. destruct (Nat.eq_dec m n) as [->|Ne].
+        + assert (KeepN : forall d, In d (D n ++ ex) -> get (g s4) d = get (g s2') d) by (intros d Hd; apply G4; apply Nn; exact Hd).
+          assert (KeepD : forall d, In d (D n) -> get (g s4) d = get (g s2') d) by (intros d Hd; apply KeepN; apply in_or_app; auto).
+          assert (Ex4 : exs_of (g s4) n = ex) by (rewrite <- Ex2'; apply exs_of_eq; exact KeepD).
+          assert (Ei4 : inp (g s4) n = D n ++ ex) by (unfold inp; rewrite Ex4; reflexivity).
+          rewrite G4n. simpl. split; auto. split.
+          * intros d Hd. rewrite Ei4 in Hd. rewrite KeepN by exact Hd. apply DD'; exact Hd.
+          * intros NE. rewrite Ei4, Ex4. unfold ins_of.
+            rewrite (chgd_eq (g s2') (g s4) (D n ++ ex) KeepN), (fires_of_eq (g s2') (g s4) (D n) KeepD).
+            rewrite (fires_of_eq (g s2') (g s4) ex) by (intros d Hd; apply KeepN; apply in_or_app; auto).
+            rewrite G4n; simpl. apply Cn3; auto.
+        + rewrite G4 in Dm0 by auto. destruct (I1 m Hm Dm0) as (Vm & Dsm & Cm).
+          assert (Gm : get (g s4) m = get (g s2') m) by (apply G4; auto).
+          assert (Km : forall d, In d (inp (g s2') m) -> get (g s4) d = get (g s2') d).
+          { intros d Hd. apply G4. intros ->. specialize (Dsm n Hd). rewrite Gn2 in Dsm. simpl in Dsm. discriminate. }
+          assert (Eim : inp (g s4) m = inp (g s2') m) by (apply inp_eq; intros d Hd; apply Km; apply in_inp_l; exact Hd).
+          rewrite Gm. split; auto. split.
+          * intros d Hd. rewrite Eim in Hd. rewrite Km by exact Hd. apply Dsm; exact Hd.
+          * apply (cons_eq (g s2') (g s4) m Km Gm Cm).
+      - intros m Hm Dm0 NE. destruct (Nat.eq_dec m n) as [->|Ne].
+        + rewrite G4n in Dm0; simpl in Dm0; discriminate.
         + rewrite G4 in * by auto. apply I2; auto. }
     assert (X04 : ext (g s) (g s4)).
     { split; [exact S4|]. split; [|split; [|split; [|split; [|split]]]].
       - intros m Hm Vm. destruct (Nat.eq_dec m n) as [->|Ne]; [rewrite G4n; auto|].
         rewrite G4 by auto. apply V12; auto. rewrite G1. apply Nat.eqb_neq in Ne. rewrite Nat.eqb_sym, Ne; auto.
-      - intros m Hm Dm. destruct (Nat.eq_dec m n) as [->|Ne]; [unfold x in *; congruence|].
+      - intros m Hm Dm0. destruct (Nat.eq_dec m n) as [->|Ne]; [unfold x in *; congruence|].
         rewrite G4 by auto. rewrite D12; auto; rewrite G1; apply Nat.eqb_neq in Ne; rewrite Nat.eqb_sym, Ne; auto.
-      - intros m Hm [Vm Dm]. destruct (Nat.eq_dec m n) as [->|Ne]; [unfold x in *; congruence|].
+      - intros m Hm [Vm Dm0]. destruct (Nat.eq_dec m n) as [->|Ne]; [unfold x in *; congruence|].
         rewrite G4 by auto. rewrite K12; auto; [|split]; rewrite G1; apply Nat.eqb_neq in Ne; rewrite Nat.eqb_sym, Ne; auto.
-      - intros m Hm [Vm Dm]. destruct (Nat.eq_dec m n) as [->|Ne]; [rewrite G4n in Dm; simpl in Dm; discriminate|].
-        rewrite G4 in * by auto. destruct (P1 m Hm (Q12 m Hm (conj Vm Dm))) as [->|]; [congruence|auto].
+      - intros m Hm [Vm Dm0]. destruct (Nat.eq_dec m n) as [->|Ne]; [rewrite G4n in Dm0; simpl in Dm0; discriminate|].
+        rewrite G4 in * by auto. destruct (P1 m Hm (Q12p m Hm (conj Vm Dm0))) as [->|]; [congruence|auto].
       - intros m Hm Vm. destruct (Nat.eq_dec m n) as [->|Ne]; [rewrite G4n in Vm; simpl in Vm; discriminate|].
         rewrite G4 in * by auto. rewrite U12; auto. rewrite G1. apply Nat.eqb_neq in Ne. rewrite Nat.eqb_sym, Ne; auto.
-      - intros m Hm Dm. destruct (Nat.eq_dec m n) as [->|Ne].
-        + (* a source is never updated *)
-          rewrite G4n. simpl. rewrite Hs3. rewrite Dm. simpl. rewrite Gn2. simpl. auto.
-        + rewrite G4 by auto. destruct (R12 m Hm Dm) as [A B]. rewrite A, B. rewrite G1.
+      - intros m Hm Dm0. destruct (Nat.eq_dec m n) as [->|Ne].
+        + (* a source is never updated: nothing is demanded, no input changed *)
+          assert (Ex0 : ex = []).
+          { rewrite Hex. unfold exs_of, ins_of. rewrite Dm0. apply Dm_quiet. reflexivity. }
+          rewrite G4n. simpl. rewrite Hs3. rewrite Dm0, Ex0. simpl. rewrite Gn2. simpl. auto.
+        + rewrite G4 by auto. destruct (R12 m Hm Dm0) as [A B]. rewrite A, B. rewrite G1.
           apply Nat.eqb_neq in Ne. rewrite Nat.eqb_sym, Ne; auto. }
     (* step E: dependents *)
     assert (Q1 : queue s1 = queue s) by (rewrite Hs1; reflexivity).
-    assert (Q4 : queue s4 = queue s2).
+    assert (Q4 : queue s4 = queue s2').
     { rewrite Hs4; unfold mark; simpl. rewrite Hs3. destruct (existsb _ _); reflexivity. }
     assert (V4n : visited (get (g s4) n) = true) by (rewrite G4n; reflexivity).
     assert (D4n : done (get (g s4) n) = true) by (rewrite G4n; reflexivity).
     assert (Inc04 : incl (queue s) (queue s4)).
-    { intros q Hq. rewrite Q4. apply Q12i. rewrite Q1. exact Hq. }
+    { intros q Hq. rewrite Q4. apply Q12'. rewrite Q1. exact Hq. }
     assert (Cov4 : forall k, k <> n -> k < N -> done (get (g s4) k) = true -> changed (get (g s4) k) = true ->
                      done (get (g s) k) = false -> CovAt s4 k).
     { intros k Ne Hk Dk Ck NDk. rewrite G4 in Dk, Ck by auto.
       assert (ND1 : done (get (g s1) k) = false). { rewrite G1. destruct (Nat.eqb_spec n k); [congruence|auto]. }
-      intros m Hm. destruct (N12 k Hk Dk Ck ND1 m Hm) as [Vm|Qm].
+      intros m Hm. destruct (N12' k Hk Dk Ck ND1 m Hm) as [Vm|Qm].
       - left. destruct (Nat.eq_dec m n) as [->|Nm]; [auto| rewrite G4; auto].
       - right. rewrite Q4; auto. }
     assert (Fin : forall s5, g s5 = g s4 -> incl (queue s4) (queue s5) ->
@@ -321,20 +571,22 @@ Section Safety.
       intros _ m Hm. right. simpl. apply in_or_app. right. rewrite G4n. simpl. rewrite Dtn3. exact Hm. }
     assert (Dt4 : dependents (get (g s4) n) = Dts n) by (rewrite G4n; simpl; exact Dtn3).
     rewrite Dt4 in E.
+    assert (Src4 : SrcOK (g s4)) by (apply (SrcOK_ext (g s)); auto).
     pose (PE := fun a : st Val => shape (g a) /\ I (g a) /\ ext (g s4) (g a) /\ incl (queue s4) (queue a) /\ NewCov s4 a).
     pose (QE := fun (m : nat) (a : st Val) => visited (get (g a) m) = true).
     assert (PreE : forall a m, PE a -> pre (g a) m false).
     { intros a m (_ & _ & (_ & _ & _ & _ & Qa & _ & _) & _) p Hp Pp. destruct X04 as (_ & _ & _ & _ & Q04 & _ & _).
       simpl in Pre. eapply Pre; eauto. }
-    destruct (fold_opt_inv2 PE QE (fun a m => update_node F false f a m false) (Dts n) s4 s') as [(S' & I' & X4' & Q4' & N4') VE]; auto.
-    { split; [|split; [|split; [|split]]]; auto. apply ext_refl; auto. apply incl_refl.
-      intros k Hk Dk Ck NDk. congruence. }
+    assert (SrcE : forall a, PE a -> SrcOK (g a)).
+    { intros a (_ & _ & Xa & _). apply (SrcOK_ext (g s4)); auto. }
+    destruct (fold_opt_inv2 PE QE (fun a m => update_node F Dm false f a m false) (Dts n) s4 s') as [(S' & I' & X4' & Q4' & N4') VE]; auto.
+    { split; [|split; [|split; [|split]]]; auto. apply ext_refl; auto. apply incl_refl. apply NewCov_refl. }
     { intros a m a' Hm Pa Ea. pose proof Pa as (Sa & Ia & Xa & Qa & Na).
-      destruct (IH a m false a' (Dts_range _ _ Hm) Sa Ia (PreE a m Pa) Ea) as (Ia' & Xa' & Va' & _ & Qa' & Na').
+      destruct (IH a m false a' (Dts_range _ _ Hm) Sa Ia (SrcE a Pa) (PreE a m Pa) Ea) as (Ia' & Xa' & Va' & _ & Qa' & Na').
       split; [|exact Va']. split; [apply Xa'|]. split; auto. split; [eapply ext_trans; eauto|].
       split; [eapply incl_tran; eauto|]. eapply NewCov_trans; eauto. }
     { intros a m y a' Hm Hy Pa Qa Ea. pose proof Pa as (Sa & Ia & Xa & _).
-      destruct (IH a y false a' (Dts_range _ _ Hy) Sa Ia (PreE a y Pa) Ea) as (_ & (_ & Vm & _) & _).
+      destruct (IH a y false a' (Dts_range _ _ Hy) Sa Ia (SrcE a Pa) (PreE a y Pa) Ea) as (_ & (_ & Vm & _) & _).
       apply Vm; auto. eapply Dts_range; eauto. }
     pose proof X4' as (_ & V4' & D4' & _ & _ & _ & _).
     split; auto. split; [eapply ext_trans; eauto|].
@@ -352,18 +604,29 @@ Section Safety.
   Definition Cov (s : st Val) := forall k, k < N -> done (get (g s) k) = true -> changed (get (g s) k) = true -> CovAt s k.
   (* a changed node that nobody visited yet is waiting in the queue (true of the sinks that were sent) *)
   Definition SrcQ (s : st Val) := forall k, k < N -> changed (get (g s) k) = true -> visited (get (g s) k) = false -> In k (queue s).
-  Definition Good (s : st Val) := shape (g s) /\ I (g s) /\ NoPend (g s) /\ Cov s /\ SrcQ s.
+  Definition Good (s : st Val) := shape (g s) /\ I (g s) /\ NoPend (g s) /\ Cov s /\ SrcQ s /\ SrcOK (g s).
 
   (* every derived node satisfies its equation: the propagation reached a fixpoint *)
   Definition Fixpoint_ok (gr : graph Val) := forall n, n < N -> cons gr n.
 
+  (* the changed flag of a node says whether its firing slot is filled *)
+  Lemma changed_is_fired gr : I gr -> SrcOK gr -> forall d, d < N -> changed (get gr d) = is_some (fire (get gr d)).
+  Proof.
+    intros [I1 I2] Src d Hd.
+    destruct (list_eq_dec Nat.eq_dec (D d) []) as [En|NE].
+    { destruct (Src d Hd En) as [A B]. rewrite A, B. reflexivity. }
+    destruct (done (get gr d)) eqn:Dd.
+    - destruct (I1 d Hd Dd) as (_ & _ & C). destruct (C NE) as [_ B]. rewrite B. reflexivity.
+    - destruct (I2 d Hd Dd NE) as [A B]. rewrite A, B. reflexivity.
+  Qed.
+
   Lemma good_empty_fix s : Good s -> queue s = [] -> Fixpoint_ok (g s).
   Proof.
-    intros (S & (I1 & I2) & NP & C & SQ) Q n Hn.
+    intros (S & (I1 & I2) & NP & C & SQ & Src) Q n Hn.
     destruct (done (get (g s) n)) eqn:Dn; [apply I1; auto|].
     intros NE. destruct (I2 n Hn Dn NE) as [Fn Cn]. rewrite Fn, Cn.
-    assert (Ex : existsb (fun d => changed (get (g s) d)) (D n) = false).
-    { destruct (existsb _ (D n)) eqn:Ex; auto. exfalso. apply existsb_exists in Ex as (d & Hd & Cd).
+    assert (NoCh : forall d, In d (D n) -> changed (get (g s) d) = false).
+    { intros d Hd. destruct (changed (get (g s) d)) eqn:Cd; auto. exfalso.
       pose proof (D_range _ _ Hd) as Hdn.
       assert (Vn : visited (get (g s) n) = false).
       { destruct (visited (get (g s) n)) eqn:Vn; auto. exfalso. apply (NP n Hn). split; auto. }
@@ -373,132 +636,141 @@ Section Safety.
         destruct (C d Hdn Dd Cd n Hm) as [V|Qn]; [congruence | rewrite Q in Qn; inversion Qn].
       - destruct (visited (get (g s) d)) eqn:Vd; [apply (NP d Hdn); split; auto|].
         pose proof (SQ d Hdn Cd Vd) as Qd. rewrite Q in Qd. inversion Qd. }
-    rewrite Ex. auto.
+    (* no static dependency fired: nothing is demanded *)
+    assert (Quiet : existsb is_some (ins_of (g s) n) = false).
+    { unfold ins_of, fires_of. rewrite existsb_map. destruct (existsb _ (D n)) eqn:Ex; auto. exfalso.
+      apply existsb_exists in Ex as (d & Hd & Fd).
+      rewrite <- (changed_is_fired (g s) (conj I1 I2) Src d (D_range _ _ Hd)) in Fd. rewrite NoCh in Fd by exact Hd. discriminate. }
+    assert (Ex0 : exs_of (g s) n = []) by (unfold exs_of; apply Dm_quiet; exact Quiet).
+    assert (Ec : chgd (g s) (inp (g s) n) = false).
+    { unfold inp. rewrite Ex0, app_nil_r. unfold chgd. destruct (existsb _ (D n)) eqn:Ex; auto. exfalso.
+      apply existsb_exists in Ex as (d & Hd & Cd). rewrite NoCh in Cd by exact Hd. discriminate. }
+    rewrite Ec. auto.
   Qed.
 
   Lemma get_out (gr : graph Val) x : length gr <= x -> visited (get gr x) = true.
   Proof. intros H. unfold get. rewrite nth_overflow; auto. Qed.
 
   Lemma update_node_out_of_range fuel a x b a' :
-    shape (g a) -> ~ x < N -> update_node F false fuel a x b = Some a' -> a' = a.
+    shape (g a) -> ~ x < N -> update_node F Dm false fuel a x b = Some a' -> a' = a.
   Proof.
     intros [L _] Hx E. destruct fuel as [|f]; [discriminate|]. cbn [update_node] in E.
     unfold get in E at 1. rewrite nth_overflow in E by lia. simpl in E. congruence.
   Qed.
 
   Lemma drain_good : forall rounds fuel s s',
-    Good s -> drain F false rounds fuel s = Some s' -> Good s' /\ queue s' = [] /\ ext (g s) (g s').
+    Good s -> drain F Dm false rounds fuel s = Some s' -> Good s' /\ queue s' = [] /\ ext (g s) (g s').
   Proof.
     induction rounds as [|r IHr]; intros fuel s s' Gd E; [discriminate|].
     cbn [drain] in E. destruct (queue s) as [|q0 qs] eqn:Q.
     { inversion E; subst. split; auto. split; auto. apply ext_refl. apply Gd. }
     rewrite <- Q in E.
     match type of E with match ?T with _ => _ end = _ => destruct T as [s1|] eqn:EF end; [|discriminate].
-    destruct Gd as (S & Inv & NP & C & SQ).
+    destruct Gd as (S & Inv & NP & C & SQ & Src).
     set (s0 := {| g := g s; queue := []; log := log s |}) in *.
     pose (P := fun a : st Val => shape (g a) /\ I (g a) /\ NoPend (g a) /\ ext (g s0) (g a) /\
                 (forall k, k < N -> done (get (g a) k) = true -> changed (get (g a) k) = true ->
                            forall m, In m (Dts k) -> visited (get (g a) m) = true \/ In m (queue a) \/ In m (queue s))).
     pose (Qv := fun (m : nat) (a : st Val) => visited (get (g a) m) = true).
-    destruct (fold_opt_inv2 P Qv (fun a x => update_node F false fuel a x false) (queue s) s0 s1) as [(S1 & I1 & NP1 & X1 & C1) V1]; auto.
+    assert (SrcP : forall a, P a -> SrcOK (g a)).
+    { intros a (_ & _ & _ & Xa & _). apply (SrcOK_ext (g s0)); auto. }
+    destruct (fold_opt_inv2 P Qv (fun a x => update_node F Dm false fuel a x false) (queue s) s0 s1) as [(S1 & I1 & NP1 & X1 & C1) V1]; auto.
     { split; [|split; [|split; [|split]]]; auto.
       - apply ext_refl; auto.
       - intros k Hk Dk Ck m Hm. destruct (C k Hk Dk Ck m Hm); auto. }
-    { intros a x a' Hx (Sa & Ia & NPa & Xa & Ca) Ea.
+    { intros a x a' Hx Pa Ea. pose proof Pa as (Sa & Ia & NPa & Xa & Ca).
       destruct (lt_dec x N) as [HxN|HxN].
       2:{ pose proof (update_node_out_of_range _ _ _ _ _ Sa HxN Ea); subst a'. split; [exact (conj Sa (conj Ia (conj NPa (conj Xa Ca))))|].
           unfold Qv. apply get_out. destruct Sa as [La _]. lia. }
       assert (Pre : pre (g a) x false) by (intros p Hp; apply NPa; auto).
-      destruct (update_node_safe fuel a x false a' HxN Sa Ia Pre Ea) as (Ia' & Xa' & Va' & _ & Qa' & Na').
+      destruct (update_node_safe fuel a x false a' HxN Sa Ia (SrcP a Pa) Pre Ea) as (Ia' & Xa' & Va' & _ & Qa' & Na').
       split; [|exact Va']. split; [apply Xa'|]. split; auto. split.
       { intros p Hp Pp. destruct Xa' as (_ & _ & _ & _ & Qp & _ & _). apply (NPa p Hp). apply Qp; auto. }
       split; [eapply ext_trans; eauto|].
       intros k Hk Dk Ck m Hm. destruct (done (get (g a) k)) eqn:Dka.
-      - pose proof Xa' as (_ & Vm & Dm & _). pose proof (Dm k Hk Dka) as Eq.
+      - pose proof Xa' as (_ & Vm & Dm0 & _). pose proof (Dm0 k Hk Dka) as Eq.
         rewrite Eq in Ck. destruct (Ca k Hk Dka Ck m Hm) as [V|[Qm|Qs]]; auto.
         left. apply Vm; auto. eapply Dts_range; eauto.
       - destruct (Na' k Hk Dk Ck Dka m Hm); auto. }
-    { intros a x y a' Hx Hy (Sa & Ia & NPa & Xa & Ca) Qa Ea.
+    { intros a x y a' Hx Hy Pa Qa Ea. pose proof Pa as (Sa & Ia & NPa & Xa & Ca).
       destruct (lt_dec y N) as [HyN|HyN].
       2:{ pose proof (update_node_out_of_range _ _ _ _ _ Sa HyN Ea); subst a'; auto. }
       assert (Pre : pre (g a) y false) by (intros p Hp; apply NPa; auto).
-      destruct (update_node_safe fuel a y false a' HyN Sa Ia Pre Ea) as (_ & (_ & Vm & _) & _).
+      destruct (update_node_safe fuel a y false a' HyN Sa Ia (SrcP a Pa) Pre Ea) as (_ & (_ & Vm & _) & _).
       destruct (lt_dec x N) as [HxN|HxN]; [apply Vm; auto|].
-      destruct (update_node_safe fuel a y false a' HyN Sa Ia Pre Ea) as (_ & ((L' & _) & _) & _).
+      destruct (update_node_safe fuel a y false a' HyN Sa Ia (SrcP a Pa) Pre Ea) as (_ & ((L' & _) & _) & _).
       unfold Qv. apply get_out. lia. }
     assert (Gd1 : Good s1).
-    { split; auto. split; auto. split; auto. split.
+    { split; auto. split; auto. split; auto. split; [|split].
       - intros k Hk Dk Ck m Hm. destruct (C1 k Hk Dk Ck m Hm) as [V|[Qm|Qs]]; auto. left. apply V1; auto.
       - intros k Hk Ck Vk. exfalso. destruct X1 as (_ & _ & _ & _ & _ & U1 & _). pose proof (U1 k Hk Vk) as Eq.
         rewrite Eq in Ck, Vk. simpl in Ck, Vk. pose proof (SQ k Hk Ck Vk) as Hq. specialize (V1 k Hq). unfold Qv in V1.
-        rewrite Eq in V1. simpl in V1. congruence. }
+        rewrite Eq in V1. simpl in V1. congruence.
+      - apply (SrcOK_ext (g s0)); auto. }
     destruct (IHr fuel s1 s' Gd1 E) as (Gd' & Q' & X').
     split; auto. split; auto. eapply ext_trans; eauto.
+  Qed.
+
+  (* a fixpoint over the sources of the solution is the solution *)
+  Lemma fixpoint_is_solution (gr : graph Val) :
+    Fixpoint_ok gr -> SrcOK gr -> forall n, n < N -> fire (get gr n) = den n /\ changed (get gr n) = is_some (den n).
+  Proof.
+    intros Fx Src n Hn. apply (closed_den gr (fun _ => True)); auto.
   Qed.
 
   (* two fixpoints over the same sources agree everywhere: the result does not depend on the order
      of the queue, of the dependents lists, or of anything else the walk did *)
   Lemma fixpoint_unique (gr1 gr2 : graph Val) :
-    Fixpoint_ok gr1 -> Fixpoint_ok gr2 ->
+    Fixpoint_ok gr1 -> Fixpoint_ok gr2 -> SrcOK gr1 ->
     (forall n, n < N -> D n = [] -> fire (get gr1 n) = fire (get gr2 n) /\ changed (get gr1 n) = changed (get gr2 n)) ->
     forall n, n < N -> fire (get gr1 n) = fire (get gr2 n) /\ changed (get gr1 n) = changed (get gr2 n).
   Proof.
-    intros F1 F2 Src n. remember (rank n) as r eqn:Hr. revert n Hr.
-    induction r as [r IHr] using lt_wf_ind. intros n Hr Hn.
-    destruct (D n) as [|d0 ds] eqn:Dn; [apply Src; auto|].
-    assert (NE : D n <> []) by (rewrite Dn; discriminate).
-    destruct (F1 n Hn NE) as [A1 B1]. destruct (F2 n Hn NE) as [A2 B2].
-    assert (Eq : forall d, In d (D n) -> fire (get gr1 d) = fire (get gr2 d) /\ changed (get gr1 d) = changed (get gr2 d)).
-    { intros d Hd. apply (IHr (rank d)); auto. subst r. apply rank_ok; auto. eapply D_range; eauto. }
-    assert (E1 : existsb (fun d => changed (get gr1 d)) (D n) = existsb (fun d => changed (get gr2 d)) (D n)).
-    { clear -Eq. induction (D n) as [|d l IHl]; simpl; auto. rewrite (proj2 (Eq d (or_introl eq_refl))), IHl; auto.
-      intros; apply Eq; simpl; auto. }
-    assert (E2 : map (fun d => fire (get gr1 d)) (D n) = map (fun d => fire (get gr2 d)) (D n)).
-    { clear -Eq. induction (D n) as [|d l IHl]; simpl; auto. rewrite (proj1 (Eq d (or_introl eq_refl))), IHl; auto.
-      intros; apply Eq; simpl; auto. }
-    assert (Fe : fire (get gr1 n) = fire (get gr2 n)) by (rewrite A1, A2, E1, E2; reflexivity).
-    split; auto. rewrite B1, B2, Fe. reflexivity.
+    intros F1 F2 Src1 Src n Hn.
+    assert (Src2 : SrcOK gr2).
+    { intros k Hk Dk. destruct (Src k Hk Dk) as [A B]. rewrite <- A, <- B. apply Src1; auto. }
+    destruct (fixpoint_is_solution gr1 F1 Src1 n Hn) as [A1 B1].
+    destruct (fixpoint_is_solution gr2 F2 Src2 n Hn) as [A2 B2]. split; congruence.
   Qed.
 
   (* C03 at engine level: whatever the order of the queue and of the dependents lists, draining ends,
-     when it ends, in the unique fixpoint over the unchanged sources. *)
+     when it ends, in the unique fixpoint over the unchanged sources: the solution. *)
   Theorem drain_fixpoint rounds fuel s s' :
-    Good s -> drain F false rounds fuel s = Some s' ->
+    Good s -> drain F Dm false rounds fuel s = Some s' ->
     Fixpoint_ok (g s') /\
-    (forall n, n < N -> D n = [] -> fire (get (g s') n) = fire (get (g s) n) /\ changed (get (g s') n) = changed (get (g s) n)).
+    (forall n, n < N -> D n = [] -> fire (get (g s') n) = fire (get (g s) n) /\ changed (get (g s') n) = changed (get (g s) n)) /\
+    (forall n, n < N -> fire (get (g s') n) = den n /\ changed (get (g s') n) = is_some (den n)).
   Proof.
     intros Gd E. destruct (drain_good rounds fuel s s' Gd E) as (Gd' & Q' & X').
-    split; [apply good_empty_fix; auto|]. apply X'.
+    assert (Fx : Fixpoint_ok (g s')) by (apply good_empty_fix; auto).
+    split; [exact Fx|]. split; [apply X'|]. apply fixpoint_is_solution; [exact Fx | apply Gd'].
   Qed.
 
   Corollary drain_order_independent r1 f1 r2 f2 s1 s2 s1' s2' :
     Good s1 -> Good s2 ->
-    (forall n, n < N -> D n = [] -> fire (get (g s1) n) = fire (get (g s2) n) /\ changed (get (g s1) n) = changed (get (g s2) n)) ->
-    drain F false r1 f1 s1 = Some s1' -> drain F false r2 f2 s2 = Some s2' ->
+    drain F Dm false r1 f1 s1 = Some s1' -> drain F Dm false r2 f2 s2 = Some s2' ->
     forall n, n < N -> fire (get (g s1') n) = fire (get (g s2') n).
   Proof.
-    intros G1 G2 Src E1 E2 n Hn.
-    destruct (drain_fixpoint _ _ _ _ G1 E1) as [F1 U1]. destruct (drain_fixpoint _ _ _ _ G2 E2) as [F2 U2].
-    apply (fixpoint_unique (g s1') (g s2') F1 F2); auto.
-    intros k Hk Dk. destruct (U1 k Hk Dk) as [A B]. destruct (U2 k Hk Dk) as [A' B']. destruct (Src k Hk Dk) as [A'' B''].
-    split; congruence.
+    intros G1 G2 E1 E2 n Hn.
+    destruct (drain_fixpoint _ _ _ _ G1 E1) as (_ & _ & A1). destruct (drain_fixpoint _ _ _ _ G2 E2) as (_ & _ & A2).
+    rewrite (proj1 (A1 n Hn)), (proj1 (A2 n Hn)). reflexivity.
   Qed.
 End Safety.
 Print Assumptions update_node_safe.
 Print Assumptions drain_order_independent.
 
 (* ---- the D1 witness: s1=0 s2=1 x1=2(s1) x2=3(s2) d=4(x1,x2) n=5(s2,d) ---- *)
-Definition mk {Val} ds dts ch (fr : option Val) : node Val := {| deps := ds; dependents := dts; visited := false; done := false; changed := ch; fire := fr |}.
+Definition mk {Val} ds dts ch (fr : option Val) : node Val :=
+  {| deps := ds; dem := []; dependents := dts; visited := false; done := false; changed := ch; fire := fr |}.
 Definition G0 : graph nat :=
   [ mk [] [2] true (Some 1); mk [] [3;5] true (Some 2); mk [0] [4] false None; mk [1] [4] false None;
     mk [2;3] [5] false None; mk [1;4] [] false None ].
 (* rule: sum of the firing inputs, +100 per node to tell them apart *)
-Definition Fsum : rule nat := fun n ins =>
-  let vs := flat_map (fun o => match o with Some v => [v] | None => [] end) ins in
+Definition Fsum : rule nat := fun n ins exs =>
+  let vs := flat_map (fun o => match o with Some v => [v] | None => [] end) (ins ++ exs) in
   match vs with [] => None | _ => Some (100 * n + list_sum vs) end.
 
 Definition final (orig : bool) (q : list nat) :=
-  match drain Fsum orig 20 20 {| g := G0; queue := q; log := [] |} with
+  match drain Fsum no_demands orig 20 20 {| g := G0; queue := q; log := [] |} with
   | Some s => Some (map fire (g s), rev (log s)) | None => None end.
 
 Eval vm_compute in final true [0;1].   (* original, s1 then s2: node 5 computed without d *)
@@ -509,29 +781,43 @@ Eval vm_compute in final false [1;0].
 (* ---- non-vacuity: the D1 witness graph satisfies every hypothesis, and the theorem applies to it ---- *)
 Definition D0 (n : nat) : list nat := nth n [[]; []; [0]; [1]; [2;3]; [1;4]] [].
 Definition Dts0 (n : nat) : list nat := nth n [[2]; [3;5]; [4]; [4]; [5]; []] [].
+Definition Dem0 (n : nat) : list nat := [].
+(* the solution of the equations for the sources 0 := 1, 1 := 2 *)
+Definition den0 (n : nat) : option nat := nth n [Some 1; Some 2; Some 201; Some 302; Some 903; Some 1405] None.
 Ltac cases6 n := do 6 (destruct n as [|n]; [simpl; try tauto; try lia|]); simpl; try tauto.
 Example witness_is_good :
-  Good Fsum D0 Dts0 6 {| g := G0; queue := [0;1]; log := [] |}.
+  Good Fsum no_demands D0 Dts0 6 den0 {| g := G0; queue := [0;1]; log := [] |}.
 Proof.
-  unfold Good, shape, I, NoPend, Cov, SrcQ, pend, clean; simpl.
+  unfold Good, shape, I, NoPend, Cov, SrcQ, SrcOK, pend, clean; simpl.
   split; [split; [reflexivity|]|].
   - intros n Hn. cases6 n. lia.
   - split; [split|].
     + intros n Hn Dn. exfalso. revert Dn. cases6 n; try discriminate. lia.
     + intros n Hn _ NE. revert NE. cases6 n; try (intros; split; reflexivity); lia.
-    + split; [|split].
+    + split; [|split; [|split]].
       * intros p Hp [V _]. revert V. cases6 p; try discriminate. lia.
       * intros k Hk Dk. exfalso. revert Dk. cases6 k; try discriminate. lia.
       * intros k Hk Ck Vk. revert Ck. cases6 k; try discriminate; try (intros; simpl; auto). lia.
+      * intros n Hn. do 6 (destruct n as [|n]; [simpl; try discriminate; intros; split; reflexivity|]). lia.
 Qed.
 Ltac inlist := simpl; intros H; repeat (destruct H as [H|H]; [subst; simpl; auto; try lia|]); try contradiction.
 Example witness_hyps :
-  (forall n d, In d (D0 n) -> d < n) /\ (forall n d, In d (D0 n) -> d < 6) /\ (forall n d, In d (Dts0 n) -> d < 6) /\
+  (forall n d, In d (D0 n ++ Dem0 n) -> d < n) /\ (forall n d, In d (D0 n) -> d < 6) /\ (forall n d, In d (Dem0 n) -> d < 6) /\
+  (forall n d, In d (Dts0 n) -> d < 6) /\
+  (forall n, n < 6 -> D0 n <> [] ->
+     den0 n = (if existsb is_some (map den0 (D0 n ++ no_demands n (map den0 (D0 n))))
+               then Fsum n (map den0 (D0 n)) (map den0 (no_demands n (map den0 (D0 n)))) else None)) /\
+  (forall n, n < 6 -> incl (no_demands n (map den0 (D0 n))) (Dem0 n)) /\
+  (forall n (ins : list (option nat)), existsb is_some ins = false -> no_demands n ins = []) /\
   (forall n d, n < 6 -> In d (D0 n) -> In n (Dts0 d)).
 Proof.
-  split; [|split; [|split]].
+  split; [|split; [|split; [|split; [|split; [|split; [|split]]]]]].
+  - intros n d. unfold Dem0. rewrite app_nil_r. do 6 (destruct n as [|n]; [inlist|]). destruct n; inlist.
   - intros n d. do 6 (destruct n as [|n]; [inlist|]). destruct n; inlist.
+  - intros n d [].
   - intros n d. do 6 (destruct n as [|n]; [inlist|]). destruct n; inlist.
-  - intros n d. do 6 (destruct n as [|n]; [inlist|]). destruct n; inlist.
+  - intros n Hn. do 6 (destruct n as [|n]; [intros NE; try (exfalso; apply NE; reflexivity); vm_compute; reflexivity|]). lia.
+  - intros n Hn d [].
+  - reflexivity.
   - intros n d Hn. do 6 (destruct n as [|n]; [inlist|]). lia.
 Qed.
